@@ -334,6 +334,46 @@ def run_cases(run, pt, tl, cases):
         pos += n
 
 
+def stage_no_density(run, pt, pools, n):
+    """no density given at all: whatever the calculator does (default density of a single-element
+    material, rejection of a compound) it does for every spelling of the same composition"""
+    import random
+    rng = run.rng
+
+    def outcome(form):
+        try:
+            return scalar(pt, obj_of(pt, form, None), 1.8)
+        except Exception as e:  # noqa: the rejection is part of the behaviour compared
+            return "raises " + type(e).__name__
+
+    def same(a, b):
+        if isinstance(a, str) or isinstance(b, str):
+            return a == b
+        return len(a) == len(b) and all(close(x, y, rel=1e-9) for x, y in zip(a, b))
+
+    for i in range(n):
+        if i % 3 == 0:
+            z, a = rng.choice(pools.elements + pools.common)
+            k = (z, a, 0)
+            s = [(rng.choice([1.0, 2.0, 3.0]), k)] if rng.random() < 0.5 else [(2.0, [(1.0, k), (2.0, k)])]
+        else:
+            s = gen_struct(rng, pools)
+        ref = outcome(s)
+        forms = variants(random.Random(rng.randrange(2 ** 31)), s) + \
+            [("all counts doubled", [(2 * c, f) for c, f in s]), ("one group, multiplier 2", [(2.0, s)]),
+             ("one group, multiplier 1", [(1.0, s)])]
+        run.count(key=("no-density", repr(s)), nontrivial=True, tag="no-density",
+                  sample=dict(struct=s, outcome=ref if isinstance(ref, str) else "values") if i < 3 else None)
+        for name, form in forms:
+            got = outcome(form)
+            if not same(ref, got):
+                run.violation("without a density the %s spelling gives %s, the original %s"
+                              % (name, got if isinstance(got, str) else "values", ref if isinstance(ref, str) else "other values"),
+                              dict(kind="no-density", struct=s, variant=name, form=form if not isinstance(form, dict) else
+                                   [[list(k), v] for k, v in form.items()]), relation="regroup-no-density")
+                break
+
+
 def run(run: Run) -> int:
     pt = import_repo()
     run.prove(generated=["Constants", "NeutronConsts"])
@@ -349,6 +389,7 @@ def run(run: Run) -> int:
     # replay consistency: the first cases once more at the end of the run – a result must not depend on
     # what was computed in between (stale or poisoned state)
     run_cases(run, pt, tl, cases[:150])
+    stage_no_density(run, pt, pools, 150 if quick else 5000)
     return run.finish(RULE, assumptions=[
         "floating-point rounding: relations are compared at 1e-9 relative (incoherent terms with the cancellation-aware rule of DESIGN 4.5)",
         "numpy broadcasting is modelled as the pointwise map (vector_is_map is a theorem about that model; the correspondence compares the real vector call with it)"])
@@ -380,6 +421,16 @@ def replay(data) -> int:
             print("  wavelength(E)=%r energy(λ)=%r wavelength(v)=%r" % (
                 float(nsf.neutron_wavelength(x)), float(nsf.neutron_energy(x)),
                 float(nsf.neutron_wavelength_from_velocity(x))))
+            continue
+        if inp.get("kind") == "no-density":
+            s = _fix(inp["struct"])
+            form = inp["form"]
+            form = {tuple(k): c for k, c in form} if inp["variant"].endswith("dict") else _fix(form)
+            for name, x in (("original", s), (inp["variant"], form)):
+                try:
+                    print("  %-22s %s" % (name, scalar(pt, obj_of(pt, x, None), 1.8)))
+                except Exception as e:  # noqa
+                    print("  %-22s raises %s: %s" % (name, type(e).__name__, e))
             continue
         s = _fix(inp["struct"])
         case = dict(struct=s, density=inp["density"], w=inp["w"], k=inp["k"], c=inp["c"], ws=inp["ws"],
